@@ -145,7 +145,9 @@ def parse_annotation(node: ast.expr | None, *, self_cls: str | None = None, know
         if base == "tuple":
             if len(sub) == 2 and isinstance(elts[1], ast.Constant) and elts[1].value is Ellipsis:
                 return tuple_of(sub[0])
-            return tuple_of(union(*sub) if sub else ANY)
+            # fixed-length tuple: element type = union of the positions; the positions
+            # themselves are kept after it (args[1:]) for unpacking and constant subscripts
+            return Ty("tuple", (union(*sub) if sub else ANY, *sub))
         if base == "Optional":
             return union(sub[0], NONE)
         if base == "Union":
